@@ -221,7 +221,20 @@ func c08Guards(c *Ctx) {
 				return
 			}
 			if _, ok := ssau.LoadOfField(call.Common().Value, prog.Abs("core"), "Branch", "Guard"); !ok {
-				return
+				// the guard handed to a helper (possibly through an interface of its own)
+				isGuard := false
+				ds := deepDefs(call.Common().Value, c.P.FuncsIn("core"))
+				for _, d := range ds {
+					if _, is := isFieldLoad(d, "core", "Branch", "Guard"); is {
+						isGuard = true
+					} else {
+						isGuard = false
+						break
+					}
+				}
+				if !isGuard {
+					return
+				}
 			}
 			found++
 			// result #0
